@@ -31,6 +31,12 @@ type PNode struct {
 	Leaves []int      `json:"leaves,omitempty"`
 	Cond   []CondLeaf `json:"cond,omitempty"`
 	Kids   []*PNode   `json:"kids,omitempty"`
+	// KidOn, when not nil, has one entry per kid: -1 = always used; c >= 0 =
+	// "switch": the parent reads cell c and uses (Cache-s) the kid only in
+	// runs where the version it read is odd, so that a cache key drops out of
+	// the computation (the child is released while possibly still cached)
+	// and comes back later.
+	KidOn []int `json:"kid_on,omitempty"`
 	Par    bool       `json:"par,omitempty"`      // evaluate Kids in concurrent goroutines
 	AfterU int        `json:"after_us,omitempty"` // reactive.InvalidateAfter(d)
 	TimerU int        `json:"timer_us,omitempty"` // harness twin of InvalidateAfter with a tracked Cleanup
@@ -65,6 +71,11 @@ func (p *PNode) Leafset() map[int]bool {
 			out[c.On] = true
 			out[c.Then] = true
 		}
+		for _, c := range n.KidOn {
+			if c >= 0 {
+				out[c] = true
+			}
+		}
 		for _, k := range n.Kids {
 			walk(k, d+1)
 		}
@@ -90,6 +101,11 @@ func (p *PNode) Shape() string {
 	}
 	if len(p.PurgeAt) > 0 {
 		s += fmt.Sprintf(" P%d", len(p.PurgeAt))
+	}
+	for _, c := range p.KidOn {
+		if c >= 0 {
+			s += " sw"
+		}
 	}
 	for _, k := range p.Kids {
 		s += " " + k.Shape()
@@ -212,7 +228,24 @@ func (rr *RR) eval(ctx context.Context, n *PNode, runID int, self *inst) (*Out, 
 
 	kids := make([]*Out, len(n.Kids))
 	errs := make([]error, len(n.Kids))
+	use := make([]bool, len(n.Kids))
+	for i := range n.Kids {
+		use[i] = true
+		if n.KidOn != nil && n.KidOn[i] >= 0 {
+			sw := w.Cells[n.KidOn[i]].Read(ctx, self)
+			out.Reads = append(out.Reads, sw)
+			use[i] = sw.Ver%2 == 1
+			if !use[i] {
+				w.mu.Lock()
+				w.Stats["switched_off_child"]++
+				w.mu.Unlock()
+			}
+		}
+	}
 	one := func(i int) {
+		if !use[i] {
+			return
+		}
 		k := n.Kids[i]
 		v, err := reactive.Cache(ctx, k.Key, func(cctx context.Context) (interface{}, error) {
 			w.mu.Lock()
